@@ -173,6 +173,11 @@ func SetSymmetricDifference(sets ...cty.Value) (cty.Value, error) {
 func setOperationReturnType(args []cty.Value) (ret cty.Type, err error) {
 	var etys []cty.Type
 	for _, arg := range args {
+		if arg.Type() == cty.DynamicPseudoType {
+			// The parameters allow an argument whose type is not known
+			// yet; then the result type isn't known yet either.
+			return cty.DynamicPseudoType, nil
+		}
 		ty := arg.Type().ElementType()
 
 		// Do not unify types for empty dynamic pseudo typed collections. These
